@@ -13,6 +13,17 @@ Additionally the deterministic resolution TreesModel.mcb_sva_trees_first_Z (firs
 run on the smaller cases: it must produce a minimum cycle basis of the same total weight (independent judge), and its own output must be
 accepted by the acceptance model.
 
+EXACT tie (cycle by cycle).  The one source of nondeterminism, the arrangement std::sort leaves among equal recorded weights, is
+recovered deterministically: harness/c01.cpp re-runs the same builder and the same std::sort call on the same graph object (before and
+after the entry point; both recoveries must agree) and prints the sources of the builder's trees (FVS = the feedback vertex set
+actually used) and the arrangement as positions of the builder's emission order (ORD).  Every `A fvs|iso` run within the size limits is
+then compared EXACTLY with the extracted as-executed model TreesFloatModel.mcb_sva_trees_go_Z (builder with the std::map default,
+ts_arrange validating ORD, first answering candidate of the arranged scan, the loop that goes on): the same number of phases, every
+cycle in emission order (as an edge set), every phase found, the model's per-phase weight = the weight of the emitted cycle (the
+per-phase weight of the code is not observable from outside; the sum is: the returned value), the returned value; and the model
+mcb_sva_trees_order the theorems of Properties_C01_trees_exact.v are stated about makes the same run (ORDER same).  A disagreement
+is judged against the property text first (failing input found vs correspondence-only).  The acceptance replay and the judging stay.
+
 Exact domain only: integer-valued weights (double weights w * 2^scale are exact).  The isometric variant on inexact doubles is known
 finding D9 and out of scope here.
 
@@ -25,9 +36,11 @@ import lib, gen, mcb_oracle as O
 
 LIBS = ["-ltbb", "-lboost_timer"]
 GROUP = "trees"
-KEYS = ["ROOTS", "EORD", "RET", "N", "CYC"]
+KEYS = ["ROOTS", "EORD", "RET", "N", "CYC", "FVS", "ORD"]
 COMP = {"fvs": "fvsaccept", "iso": "isoaccept"}
 CORR = "correspondence trees/%s: TreesModel.mcb_sva_trees_replay_Z (acceptance) vs harness/c01.cpp"
+CORRX = ("correspondence trees/%s exact: TreesFloatModel.mcb_sva_trees_go_Z (run as executed under the recovered std::sort arrangement; "
+         "theorems Properties_C01_trees_exact.C01_trees_order_accepted / C01_trees_go_is_order) vs harness/c01.cpp")
 
 
 def limits(tier):
@@ -54,6 +67,48 @@ def model_line(gt, roots, picks, cycles):
 
 def first_line(alg, gt, roots, picks):
     return "%s %s %d %s %d %s" % (alg, gt, len(roots), " ".join(roots), len(picks), " ".join(picks))
+
+
+def run_line(alg, gt, roots, picks, order):
+    """case of the model entry `run` (the run as executed): alg graph roots picks order"""
+    return "%s %s %d %s %d %s %d %s" % (alg, gt, len(roots), " ".join(roots), len(picks), " ".join(picks), len(order), " ".join(order))
+
+
+def parse_run(mline):
+    """'RET t N k CYC (len ids)*k W w*k FND b*k SG (len ids)*k ORDER same|differs' -> (total, cycles, weights, found, order_same) or None"""
+    t = mline.split()
+    if not t or t[0] != "RET" or "W" not in t or "FND" not in t or "ORDER" not in t: return None
+    try:
+        ret, cycles = O.parse_alg_output(" ".join(t[:t.index("W")]))
+        k = len(cycles)
+        iw = t.index("W"); ws = [int(x) for x in t[iw + 1:iw + 1 + k]]
+        ifd = t.index("FND"); fnd = t[ifd + 1:ifd + 1 + k]
+        if len(ws) != k or len(fnd) != k or not isinstance(ret, int): return None
+        return ret, cycles, ws, [x == "1" for x in fnd], t[t.index("ORDER") + 1] == "same"
+    except Exception:
+        return None
+
+
+def exact_diff(es, ret, cycles, m):
+    """None when the implementation's run (returned value, cycles in emission order) IS the model's run `m`; else what differs"""
+    pm = parse_run(m)
+    if pm is None:
+        return "the as-executed model does not complete: %s" % m[:80]
+    mret, mcycles, mws, mfnd, same = pm
+    if len(mcycles) != len(cycles):
+        return "%d cycles emitted, the model's run has %d phases" % (len(cycles), len(mcycles))
+    for k, (a, b) in enumerate(zip(cycles, mcycles)):
+        if sorted(a) != sorted(b) or len(set(a)) != len(a):
+            return "phase %d: emitted cycle {%s}, the model's first answering candidate gives {%s}" % (k, " ".join(map(str, sorted(a))), " ".join(map(str, sorted(b))))
+        if not mfnd[k]:
+            return "phase %d: the model's lookup comes up empty" % k
+        if mws[k] != sum(es[e][2] for e in a):
+            return "phase %d: the model's weight %d is not the weight of the emitted cycle" % (k, mws[k])
+    if mret != ret:
+        return "returned value %s, the model accumulates %s" % (ret, mret)
+    if not same:
+        return "mcb_sva_trees_order (the model the theorems are about) does not make the run of mcb_sva_trees_go_Z"
+    return None
 
 
 def judge(what, n, es, cycles, ret, opt=None):
@@ -90,7 +145,8 @@ def own_cases(rng, tier):
 def run_trees(c, tier, what="basis", lines=None, io=None, orig=None, label="trees"):
     """Replays every fvs/iso run of `lines` (generated here when None) through the acceptance model; violations go to the Check `c`.
     Returns a dict with counts (also stored in c.extra["trees"])."""
-    stats = {"replayed": 0, "accepted": 0, "rejected": 0, "skipped_size": 0, "first_runs": 0, "first_reaccepted": 0}
+    stats = {"replayed": 0, "accepted": 0, "rejected": 0, "skipped_size": 0, "first_runs": 0, "first_reaccepted": 0,
+             "exact_runs": 0, "exact_equal": 0}
     c.extra["trees"] = stats
     if not c.step_model(GROUP):
         return stats
@@ -164,12 +220,14 @@ def run_trees(c, tier, what="basis", lines=None, io=None, orig=None, label="tree
         k = gts[i]
         if k not in opts: opts[k] = O.mcb(parsed[i][1], parsed[i][2])
         return opts[k]
+    whys = {}
     for alg in ("fvs", "iso"):
         mo = lib.run_model(COMP[alg], mlines[alg], group=GROUP, timeout=1500)
         for i, ml, m in zip(order[alg], mlines[alg], mo):
             _, n, es, ret, cycles, roots, picks = parsed[i]
             stats["replayed"] += 1
             why = judge(what, n, es, cycles, ret, opt_of(i) if what != "basis" else None)
+            whys[i] = why
             t = m.split()
             if t and t[0] == "ACCEPT":
                 stats["accepted"] += 1
@@ -186,6 +244,34 @@ def run_trees(c, tier, what="basis", lines=None, io=None, orig=None, label="tree
             else:
                 report("corr", i, "correspondence trees/%s (acceptance replay of the emitted cycles: %s) no longer checks; the implementation's answer still satisfies the property text" % (alg, m[:80]),
                        False, {"model": m, "model_case": ml, "theorem_or_correspondence": CORR % alg})
+    # ---- exact tie: the run as executed under the recovered std::sort arrangement, cycle by cycle -----------------------------
+    xl, xo = [], []
+    for alg in ("fvs", "iso"):
+        for i in order[alg]:
+            f = lib.fields(io[i], KEYS)
+            if orig is not None or "ORD" not in f or "FVS" not in f: continue      # a run taken from another harness (no recovered arrangement; not the sequential scan)
+            _, n, es, ret, cycles, roots, picks = parsed[i]
+            fvs = f["FVS"]
+            if alg == "fvs" and fvs != picks:
+                report("corr", i, "correspondence trees/fvs exact: the sources of the builder's trees (%s) are not the feedback vertex set greedy_fvs "
+                       "returns on the same graph through harness c13 (%s)" % (" ".join(fvs), " ".join(picks)), False,
+                       {"theorem_or_correspondence": CORRX % alg})
+                continue
+            xl.append(run_line(alg, gts[i], roots, fvs if alg == "fvs" else [], f["ORD"])); xo.append(i)
+    xres = lib.run_model("run", xl, group=GROUP, timeout=1500)
+    for i, l, m in zip(xo, xl, xres):
+        alg, n, es, ret, cycles, roots, picks = parsed[i]
+        stats["exact_runs"] += 1
+        d = exact_diff(es, ret, cycles, m)
+        if d is None:
+            stats["exact_equal"] += 1; continue
+        why = whys.get(i)
+        if why:
+            report("judge", i, "%s_trees: %s (exact tie: %s)" % (alg, why, d), True, {"model_exact": m, "model_exact_case": l})
+        else:
+            report("corr-exact", i, "correspondence trees/%s exact (run as executed under the recovered std::sort arrangement) no longer checks: %s; "
+                   "the implementation's answer still satisfies the property text" % (alg, d), False,
+                   {"model_exact": m, "model_exact_case": l, "theorem_or_correspondence": CORRX % alg})
     # ---- deterministic resolution (model-side test; also ties the model's collection to the code's through the total weight) ------
     fl, fo = [], []
     for alg in ("fvs", "iso"):
@@ -241,6 +327,14 @@ def replay_case(pid, r, what):
         print("model:", m)
         if not m.startswith("ACCEPT") or (what != "basis" and isinstance(ret, int) and int(m.split()[1]) != ret):
             bad = "run not accepted by the acceptance model"
+        if not bad and "ORD" in f and "FVS" in f:
+            if alg == "fvs" and f["FVS"] != (picks or []):
+                bad = "the sources of the builder's trees are not the feedback vertex set of harness c13"
+            else:
+                xm = lib.run_model("run", [run_line(alg, gt, f.get("ROOTS", []), f["FVS"] if alg == "fvs" else [], f["ORD"])], par=1, group=GROUP)[0]
+                print("model (as executed):", xm)
+                d = exact_diff(es, ret, cycles, xm)
+                if d: bad = "exact tie: " + d
     print("judge:", bad)
     if bad:
         print("VIOLATION property=%s replay=%s" % (pid, r.get("_path", "?"))); return 1
